@@ -149,7 +149,10 @@ func (c *Ctx) adp(which map[string]bool) {
 					continue
 				}
 				// the value the running maximum takes at the next iteration
-				latch := p.Blocks[len(p.Blocks)-1]
+				latch := lastBlockOf(p)
+				if latch == nil {
+					continue
+				}
 				var next ssa.Value
 				for i, pb := range runMax.Block().Preds {
 					if pb == latch {
